@@ -22,6 +22,9 @@ pub enum C09Case {
     KeyE2E { lens: Vec<u32> },
     /// end-to-end on an aged store: thousands of freed large slots, then the sentinel sequence
     ValE2EAged { lens: Vec<u32> },
+    /// end-to-end on a store that held large records, was emptied completely, closed and reopened
+    ValE2EEmptied { lens: Vec<u32> },
+    KeyE2EEmptied { lens: Vec<u32> },
 }
 
 /// offsets at both ends of every vu64 width, for the raw offset and for offset/8
@@ -116,6 +119,8 @@ fn cases(tier: Tier, seed: u64) -> Vec<C09Case> {
     for ch in [1600u32, 2100, 3000, 4999, 5000, 5001, 5900, 6100, 9000].chunks(3) {
         c.push(C09Case::ValE2EAged { lens: ch.to_vec() });
     }
+    c.push(C09Case::ValE2EEmptied { lens: vec![0, 15, 1000, 1100, 1500, 2990, 3000, 5000] });
+    c.push(C09Case::KeyE2EEmptied { lens: vec![10, 880, 900, 1030, 2000] });
     let mut kl = e2e_key_lengths(tier, seed);
     kl.sort_by(|a, b| b.cmp(a));
     for ch in kl.chunks(E2E_CHUNK) {
@@ -235,10 +240,11 @@ macro_rules! efail {
 }
 
 fn e2e_one(is_key: bool, len: u32, w: &WCtx) -> Result<(), Failure> {
-    e2e_one_v(is_key, len, false, w)
+    e2e_one_v(is_key, len, 0, w)
 }
 
-fn e2e_one_v(is_key: bool, len: u32, aged: bool, w: &WCtx) -> Result<(), Failure> {
+/// aged: 0 fresh store, 1 thousands of freed large slots, 2 emptied completely after it held large records (and reopened)
+fn e2e_one_v(is_key: bool, len: u32, aged: u8, w: &WCtx) -> Result<(), Failure> {
     crate::exec::tick();
     let ctx = w.ctx();
     let r = guarded(&ctx, || {
@@ -252,13 +258,33 @@ fn e2e_one_v(is_key: bool, len: u32, aged: bool, w: &WCtx) -> Result<(), Failure
         let vb = pattern_bytes(40, 2);
         let vx: Vec<u8> = if is_key { pattern_bytes(9, 3) } else { pattern_bytes(len as usize, 3) };
         let params = Params::plain(Buckets::BucketsSize(8));
-        let db = abyssiniandb::open_file(&ctx.dir).map_err(|e| Failure::new("error", None, format!("open_file: {e}")))?;
+        let mut db = abyssiniandb::open_file(&ctx.dir).map_err(|e| Failure::new("error", None, format!("open_file: {e}")))?;
         let mut m = open_map(&db, "s", Kt::Bytes, &params).map_err(|e| Failure::new("error", None, format!("open: {e}")))?;
         let io = |e: std::io::Error| Failure::new("error", None, format!("{what} length {len}: call returned Err: {e}"));
+        if aged == 2 {
+            // large value and key records, all deleted again (the last one deleted is a large one),
+            // clean close, reopen: then the sentinel sequence refills the emptied store
+            let mut ks = Vec::new();
+            for (i, (kl, vl)) in [(12usize, 2000usize), (900, 30), (14, 1200), (1500, 3000), (11, 10), (2000, 1100)].iter().enumerate() {
+                let k = pattern_bytes(*kl, 500 + i as u32);
+                m.put(&k, &pattern_bytes(*vl, 600 + i as u32)).map_err(io)?;
+                ks.push(k);
+            }
+            for k in ks.iter() {
+                m.delete(k).map_err(io)?;
+            }
+            if m.len().map_err(io)? != 0 {
+                efail!("{what} length {len}: the store is not empty after deleting everything");
+            }
+            drop(m);
+            drop(db);
+            db = abyssiniandb::open_file(&ctx.dir).map_err(|e| Failure::new("error", None, format!("open_file: {e}")))?;
+            m = open_map(&db, "s", Kt::Bytes, &params).map_err(|e| Failure::new("error", None, format!("open: {e}")))?;
+        }
         // aged store: 9000 entries of ~1.1-1.5 KB (+ one of 6000 bytes freed first), every second
         // one deleted: thousands of slots on the shared large free list
         let mut aged_live: Vec<(Vec<u8>, Vec<u8>)> = Vec::new();
-        if aged {
+        if aged == 1 {
             let kbig = format!("aged-big").into_bytes();
             m.put(&kbig, &pattern_bytes(6000, 77)).map_err(io)?;
             let mut all = Vec::new();
@@ -381,9 +407,13 @@ fn run_c09(c: &C09Case, w: &WCtx) -> Result<(Report, u64, Vec<u64>), Failure> {
             let (n, nt) = res.unwrap();
             Ok((r, n, nt))
         }
-        C09Case::ValE2E { lens } | C09Case::KeyE2E { lens } | C09Case::ValE2EAged { lens } => {
-            let is_key = matches!(c, C09Case::KeyE2E { .. });
-            let aged = matches!(c, C09Case::ValE2EAged { .. });
+        C09Case::ValE2E { lens } | C09Case::KeyE2E { lens } | C09Case::ValE2EAged { lens } | C09Case::ValE2EEmptied { lens } | C09Case::KeyE2EEmptied { lens } => {
+            let is_key = matches!(c, C09Case::KeyE2E { .. } | C09Case::KeyE2EEmptied { .. });
+            let aged: u8 = match c {
+                C09Case::ValE2EAged { .. } => 1,
+                C09Case::ValE2EEmptied { .. } | C09Case::KeyE2EEmptied { .. } => 2,
+                _ => 0,
+            };
             let mut nt = Vec::new();
             for &l in lens {
                 e2e_one_v(is_key, l, aged, w).map_err(|mut f| {
@@ -422,7 +452,7 @@ impl Prop for C09 {
         "C09"
     }
     fn rule(&self) -> String {
-        "(a) arithmetic, exhaustive, no I/O, through the layout-probe hook that calls the crate's own encoded_piece_size + roundup: every value length 0..=2^24+2^16 and every key length 0..=2^16 x every pair of 24 offset representatives (both ends of each vu64 width for the raw offset and for offset/8); oracle: independently computed record length (size field of the chosen slot + length field + payload [+ offset fields]) <= slot, slot a legal size class. (b) end to end: for every length 0..=4200, +-3 around 4 KiB*j (j<=8), around 128 KiB, 1 MiB and 16 MiB (values) / up to 64 KiB (keys) [thorough: + 24000 random lengths]: sentinel A, the entry, sentinel B in three different buckets, then the entry's value overwritten one byte shorter, one byte longer and back (keys: value rewritten with other lengths); nine lengths are also stored on an AGED store (9000 entries of 1.1-1.5 KB, every second one deleted: thousands of freed large slots) where all surviving entries are re-read after every write; oracle: all three read back byte for byte, the independent decoder finds the record inside its slot with exactly the bytes put, structure and tiling clean, and the raw bytes of both sentinels' value slots never change. evaluations = swept lengths/combinations + end-to-end lengths. Non-trivial: a length L whose slot differs from that of L+1 (distinct by L)."
+        "(a) arithmetic, exhaustive, no I/O, through the layout-probe hook that calls the crate's own encoded_piece_size + roundup: every value length 0..=2^24+2^16 and every key length 0..=2^16 x every pair of 24 offset representatives (both ends of each vu64 width for the raw offset and for offset/8); oracle: independently computed record length (size field of the chosen slot + length field + payload [+ offset fields]) <= slot, slot a legal size class. (b) end to end: for every length 0..=4200, +-3 around 4 KiB*j (j<=8), around 128 KiB, 1 MiB and 16 MiB (values) / up to 64 KiB (keys) [thorough: + 24000 random lengths]: sentinel A, the entry, sentinel B in three different buckets, then the entry's value overwritten one byte shorter, one byte longer and back (keys: value rewritten with other lengths); nine lengths are also stored on an AGED store (9000 entries of 1.1-1.5 KB, every second one deleted: thousands of freed large slots) where all surviving entries are re-read after every write, and eight value / five key lengths on a store that held large value and key records, was EMPTIED completely, closed and reopened; oracle: all three read back byte for byte, the independent decoder finds the record inside its slot with exactly the bytes put, structure and tiling clean, and the raw bytes of both sentinels' value slots never change. evaluations = swept lengths/combinations + end-to-end lengths. Non-trivial: a length L whose slot differs from that of L+1 (distinct by L)."
             .to_string()
     }
     fn assumptions(&self) -> Vec<String> {
